@@ -116,8 +116,11 @@ def gen_file(rng, tier, i, mode):
     ext = {"export": ".export", "tigerxml": ".xml", "brackets": ".mrg",
            "discobrackets": ".dbr"}[fmt]
     path = "/sim/w/f%d%s%s" % (i, ext, ".gz" if gz else "")
-    return {"path": path, "fmt": fmt, "codec": codec, "tb": tb, "layout": rng.randrange(1 << 30),
-            "enc": enc, "gz": gz, "kw": kw, "opts": opts}
+    d = {"path": path, "fmt": fmt, "codec": codec, "tb": tb, "layout": rng.randrange(1 << 30),
+         "enc": enc, "gz": gz, "kw": kw, "opts": opts}
+    if fmt == "tigerxml" and rng.random() < 0.4:
+        d["enc_arg"] = rng.choice(["utf-8", "latin-1", "utf-16"])    # documented to be ignored
+    return d
 
 
 def generate(seed, tier):
@@ -181,7 +184,7 @@ def build_spec(sc):
     for j, r in enumerate(sc["readers"]):
         f = sc["files"][r["file"]]
         sessions.append({"id": "r%d" % j, "ops": [
-            ["reader", "r", f["fmt"], f["path"], f["enc"], f["opts"]],
+            ["reader", "r", f["fmt"], f["path"], f.get("enc_arg", f["enc"]), f["opts"]],
             ["loop", "r", "t", []]]})
     return {"files": files, "sessions": sessions, "schedule": sc.get("schedule", []),
             "io_seed": sc.get("io_seed", 0), "short_reads": sc.get("short_reads", True)}
